@@ -394,9 +394,9 @@ pub fn generate_specs(prop: &dyn Prop, tier: Tier) -> Vec<(&'static str, Spec)> 
     for (pi, (profile, n)) in prop.profiles(tier).into_iter().enumerate() {
         let mut r = runner(seed(), &format!("{}-specs-{}-{}", prop.id(), pi, profile.name));
         let strat = oracle::gen::spec_strategy(&profile);
-        // Engine A is cheap (≈10^6 cases/s, ≈40 lexers compiled per second): the quick tier runs
-        // three times the base number of definitions.
-        let n = if tier == Tier::Quick { n * 3 } else { n };
+        // Engine A is cheap (≈10^6 cases/s, ≈40 lexers compiled per second): both tiers run three
+        // times the base number of definitions given by the property.
+        let n = n * 3;
         for _ in 0..n {
             let s = sample(&strat, &mut r);
             let s = prop.adjust_spec(s, &mut r);
@@ -748,7 +748,8 @@ pub fn prepare(crate_name: &str, specs: Vec<(&'static str, Spec)>) -> Prepared {
         }
     }
     let map: BTreeMap<usize, &Spec> = usable.iter().map(|i| (*i, &specs[*i].1)).collect();
-    let build = genc::build(crate_name, &map, 16);
+    let n_bins = (map.len() / 150).clamp(16, 96);
+    let build = genc::build(crate_name, &map, n_bins);
     for (i, e) in &build.failed {
         excluded.push((*i, format!("rustc: {}", pipe::trunc(e, 600))));
     }
@@ -960,7 +961,7 @@ pub fn run_collect(prop: &dyn Prop, tier: Tier) -> (Evidence, i32) {
                     }
                 }
             }
-            let fr = crate::engd::lex_inputs_stage(prop.id(), facet, &specs_b, &seeds, 400_000, 900);
+            let fr = crate::engd::lex_inputs_stage(prop.id(), facet, &specs_b, &seeds, 1_200_000, 2400);
             let mut confirmed = 0;
             for (k, case, msg) in &fr.crashes {
                 // re-judge through the ordinary path so that the verdict is this property's
